@@ -331,6 +331,18 @@ def check_memory(item):
             qv = solve.model_val(m, q)
             what = "mapped" if z3.is_true(m.eval(mem.mapped(q) != exp_mapped, model_completion=True)) else ("byte" if z3.is_true(m.eval(mem.byte(q) != exp_byte, model_completion=True)) else "permissions")
             out["findings"].append({"kind": f"image differs ({what})", "detail": f"at q={qv:#x}: mapped {m.eval(mem.mapped(q), model_completion=True)} (expected {m.eval(exp_mapped, model_completion=True)}), byte {m.eval(mem.byte(q), model_completion=True)} (expected {m.eval(exp_byte, model_completion=True)}), perm {m.eval(mem.perm(q), model_completion=True)} (expected {m.eval(exp_p, model_completion=True)})", "model": dict(model_of(m, h), q=qv)})
+            if npre == 0:
+                # replay before reporting: the same difference for a header small enough to be written into a real file
+                small = [z3.ULE(p["p_offset"], bv(700)), z3.ULE(p["p_filesz"], bv(96)), z3.ULE(p["p_memsz"], bv(160)), z3.ULT(p["p_vaddr"], bv(1 << 40)), z3.ULT(h.base, bv(1 << 40)),
+                         z3.ULE(p["p_align"], bv(1 << 16)), z3.ULT(p["p_paddr"], bv(1 << 40)), h.flen == bv(1024)]
+                v2, m2, dt2 = solve.check(pc + [diff] + small, 30000); out["solver_s"] += dt2
+                if v2 == solve.SAT:
+                    mv = model_of(m2, h)
+                    ok, detail = validate_memory(mv, 64, big=False, seed=1)
+                    out["findings"][-1]["replay"] = "not reproduced" if ok else "confirmed"
+                    if not ok: out["findings"][-1]["detail"] += "; " + detail[:200]; out["findings"][-1]["model"] = mv
+                else:
+                    out["findings"][-1]["replay"] = "not realisable as a small generated file"
         elif v == solve.UNDECIDED: out["undecided"].append("image query")
         else: out["unsat"] += 1
         # validation of the stubs: a solver-chosen header on this path, written into a real ELF file and loaded by the real code
@@ -413,9 +425,36 @@ def check_entries(item):
 
     def ask(pc, bad, kind, detail):
         v, m, dt = solve.check(pc + [bad], 30000); out["solver_s"] += dt
-        if v == solve.SAT: out["findings"].append({"kind": kind, "detail": detail(m), "model": model_of(m, h)})
+        if v == solve.SAT:
+            f = {"kind": kind, "detail": detail(m), "model": model_of(m, h), "replay": "not realisable as a generated file"}
+            # replay before reporting: the same violation on a parse result that a real file produces, run through the real loader
+            v2, m2, dt2 = solve.check(pc + [bad] + file_realisable(h), 30000); out["solver_s"] += dt2
+            if v2 == solve.SAT:
+                mv = model_of(m2, h)
+                real = run_real(mv, h)
+                if not real.get("ok"):
+                    f["replay"] = "real loader rejects the generated file: " + str(real)[:160]
+                else:
+                    kinds = concrete_oracle(what, mv, h, real)
+                    f["model"] = mv; f["detail"] = detail(m2) + f"; real {what} = {str(real_result(what, real))[:200]}"
+                    f["replay"] = "confirmed" if (kind in kinds or (kind in ("panic", "error") and kinds)) else "not reproduced"
+            out["findings"].append(f)
         elif v == solve.UNDECIDED: out["undecided"].append(kind)
         else: out["unsat"] += 1
+
+    def validate(pc, res):
+        # every 7th path: a solver-chosen file for this path through the real loader; the symbolic result must agree
+        out["vcount"] = out.get("vcount", 0) + 1
+        if out["vcount"] % 7 != 1 or out["validated"] + len(out["validation_failures"]) >= 12: return
+        v, m, dt = solve.check(pc + file_realisable(h), 20000); out["solver_s"] += dt
+        if v != solve.SAT: return
+        mv = model_of(m, h)
+        real = run_real(mv, h)
+        if not real.get("ok"):
+            out["validation_failures"].append({"model": mv, "detail": f"real loader fails: {str(real)[:200]}"}); return
+        exp = expected_from_run(what, m, res, h); got = real_result(what, real)
+        if exp == got: out["validated"] += 1
+        else: out["validation_failures"].append({"model": mv, "detail": f"real {what} = {str(got)[:200]}, symbolic run says {str(exp)[:200]}"})
     for r in I.explore(it, fn, mk, max_paths=3000):
         out["paths"] += 1; out["calls"] |= set(r["calls"])
         pc = r["pc"]
@@ -425,6 +464,7 @@ def check_entries(item):
             ask(pc, z3.BoolVal(True), "panic", lambda m: r["msg"][:120]); continue
         res = val(r["value"])
         if what == "program_entry":
+            validate(pc, r["value"])
             ask(pc, res != h.e_entry + h.base, "program entry not rebased", lambda m: f"program_entry() = {solve.model_val(m, res):#x}, e_entry = {solve.model_val(m, h.e_entry):#x}, base = {solve.model_val(m, h.base):#x}")
             continue
         if what == "function_entries":
@@ -441,20 +481,12 @@ def check_entries(item):
             ask(pc, extra, "function entry that is no defined function symbol, program entry or user entry", lambda m: f"entries {[hex(solve.model_val(m, a)) for a in addrs]} base {solve.model_val(m, h.base):#x}")
             dup = z3.Or(*[addrs[i] == addrs[k] for i in range(len(addrs)) for k in range(i + 1, len(addrs))]) if len(addrs) > 1 else z3.BoolVal(False)
             ask(pc, dup, "address reported twice", lambda m: f"entries {[hex(solve.model_val(m, a)) for a in addrs]}")
-            if item["ndyn"] == 0 and out["validated"] + len(out["validation_failures"]) < 12:
-                lim = bv(1 << 40)
-                small = [z3.ULT(h.base, lim), z3.ULT(h.e_entry, lim)] + [z3.And(z3.ULT(s_["st_value"], lim), z3.ULT(s_["st_shndx"], bv(0xff00)), z3.ULT(s_["st_size"], lim)) for s_ in h.sym] + [z3.ULT(u, lim) for u in h.user]
-                v, m, dt = solve.check(pc + small, 20000); out["solver_s"] += dt
-                if v == solve.SAT:
-                    mv = model_of(m, h)
-                    exp = sorted(solve.model_val(m, a) for a in addrs)
-                    ok, detail = validate_entries(mv, exp, len(h.sym), len(h.user))
-                    if ok: out["validated"] += 1
-                    else: out["validation_failures"].append({"model": mv, "detail": detail})
+            validate(pc, r["value"])
             continue
         # symbols / exported_symbols: Vec<Symbol { name, address }>
         syms = [val(x) for x in val(res).items]
         addrs = [val(s.fields[0]) for s in syms]            # Symbol { address, name }
+        validate(pc, r["value"])
         if what == "symbols":
             sources = [(s["st_value"] != 0, s["st_value"]) for s in h.dyn + h.sym]
             for pi, p in enumerate(h.plt):
@@ -470,20 +502,74 @@ def check_entries(item):
     return out
 
 
-def validate_entries(mv, expected_addresses, nsym, nuser):
+def file_realisable(h):
+    """constraints under which a parse result is one that a (generated) ELF64 file produces: 16-bit section indices, the
+    dynamic symbol table at least as long as the largest relocation symbol index (goblin sizes it that way)"""
+    lim = bv(1 << 40)
+    c = [z3.ULT(h.base, lim), z3.ULT(h.e_entry, lim)] + [z3.ULT(u, lim) for u in h.user]
+    for s_ in h.dyn + h.sym:
+        c += [z3.ULT(s_["st_value"], lim), z3.ULT(s_["st_shndx"], bv(0xff00)), z3.ULT(s_["st_size"], lim)]
+    for p in h.plt:
+        c += [z3.ULT(p["r_offset"], lim), z3.ULT(p["r_sym"], bv(max(1, len(h.dyn)))), z3.ULT(p["r_type"], bv(256, 32))]
+    return c
+
+
+def run_real(mv, h):
+    """build an ELF64 file with exactly the model's symbols/relocations and push it through the real loader"""
     from smt import drv
     from gen import elfgen
-    syms = [dict(mv[f"sym{i}"], st_name=f"s{i}") for i in range(nsym)]
-    data = elfgen.build(64, False, 62, entry=mv["e_entry"], phdrs=[], symbols=syms, min_len=256)
-    r = drv.call({"cmd": "elf", "bytes": data.hex(), "base": mv["base"], "user_entries": [mv[f"user{i}"] for i in range(nuser)]})
-    if not r.get("ok") or isinstance(r.get("function_entries"), dict):
-        return False, f"real loader fails: {str(r)[:200]}"
-    got = sorted(a for a, _ in r["function_entries"])
-    if got != expected_addresses:
-        return False, f"real function entries {[hex(a) for a in got]}, symbolic run says {[hex(a) for a in expected_addresses]}"
-    if r["program_entry"] != (mv["e_entry"] + mv["base"]) & (2**64 - 1):
-        return False, f"real program_entry {r['program_entry']:#x}"
-    return True, ""
+    syms = [dict(mv[f"sym{i}"], st_name=f"s{i}") for i in range(len(h.sym))]
+    dyns = [dict(mv[f"dyn{i}"], st_name=f"d{i}") for i in range(len(h.dyn))]
+    plts = [mv[f"plt{i}"] for i in range(len(h.plt))]
+    data = elfgen.build(64, False, 62, entry=mv["e_entry"], phdrs=[], symbols=syms, min_len=256,
+                        dynsyms=dyns if (dyns or plts) else None, pltrels=plts)
+    return drv.call({"cmd": "elf", "bytes": data.hex(), "base": mv["base"], "user_entries": [mv[f"user{i}"] for i in range(len(h.user))]})
+
+
+def concrete_oracle(what, mv, h, real):
+    """the property's statement evaluated on the real loader's output for the concrete file; returns the violated kinds"""
+    M64 = 2**64 - 1
+    base = mv["base"]
+    bad = []
+    dyn = [mv[f"dyn{i}"] for i in range(len(h.dyn))]; sym = [mv[f"sym{i}"] for i in range(len(h.sym))]
+    if what == "program_entry":
+        if real["program_entry"] != (mv["e_entry"] + base) & M64: bad.append("program entry not rebased")
+        return bad
+    if what == "function_entries":
+        if isinstance(real["function_entries"], dict): return ["error"]
+        got = [a for a, _ in real["function_entries"]]
+        want = {(s_["st_value"] + base) & M64 for s_ in dyn + sym if (s_["st_info"] & 0xf) == 2 and s_["st_value"] != 0 and s_["st_shndx"] > 0}
+        want |= {(mv["e_entry"] + base) & M64} | {(mv[f"user{i}"] + base) & M64 for i in range(len(h.user))}
+        if want - set(got): bad.append("function entry missing or not rebased by base")
+        if set(got) - want: bad.append("function entry that is no defined function symbol, program entry or user entry")
+        if len(got) != len(set(got)): bad.append("address reported twice")
+        return bad
+    got = {a for a, _ in real["symbols" if what == "symbols" else "exported_symbols"]}
+    if what == "symbols":
+        want = {(s_["st_value"] + base) & M64 for s_ in dyn + sym if s_["st_value"] != 0}
+        want |= {(mv[f"plt{i}"]["r_offset"] + base) & M64 for i in range(len(h.plt)) if mv[f"plt{i}"]["r_sym"] < len(dyn)}
+    else:
+        want = {(s_["st_value"] + base) & M64 for s_ in dyn if s_["st_value"] != 0 and s_["st_shndx"] != 0 and (s_["st_info"] >> 4) in (1, 2)}
+    if want - got: bad.append("symbol missing or not rebased by base")
+    if got - want: bad.append("symbol address that is not (file value + base)")
+    return bad
+
+
+def expected_from_run(what, m, res, h):
+    """what the symbolic run says the function returns under model m (a sorted address list, or the entry)"""
+    if what == "program_entry": return solve.model_val(m, val(res))
+    if what == "function_entries":
+        r_ = val(res)
+        if r_.variant != 0: return "error"
+        return sorted(solve.model_val(m, val(val(x).fields[0])) for x in val(r_.fields[0]).items)
+    return sorted(set(solve.model_val(m, val(val(x).fields[0])) for x in val(res).items))
+
+
+def real_result(what, real):
+    if what == "program_entry": return real["program_entry"]
+    if what == "function_entries":
+        return "error" if isinstance(real["function_entries"], dict) else sorted(a for a, _ in real["function_entries"])
+    return sorted(set(a for a, _ in real["symbols" if what == "symbols" else "exported_symbols"]))
 
 
 # -------------------------------------------------------------- C: Elf::new --
@@ -869,9 +955,12 @@ def main():
             rep.count("sat")
             role = r["what"].split(" ")[0]
             sig = f"elf/{role}/{f['kind']}"
+            if f.get("replay") == "not reproduced":
+                rep.encoder_defect(f"{r['what']}: {f['kind']}: model does not reproduce on the real loader: {f['detail']} [{json.dumps(f['model'])[:300]}]")
+                continue
             if sig in seen: continue
             seen.add(sig)
-            rep.violation(sig, f"{r['what']}: {f['kind']}: {f['detail']} [{json.dumps(f['model'])[:300]}]", {"item": it, "finding": f})
+            rep.violation(sig, f"{r['what']}: {f['kind']}: {f['detail']} [replay: {f.get('replay', 'symbolic run only')}] [{json.dumps(f['model'])[:300]}]", {"item": it, "finding": f})
     rep.functions_encoded = sorted(fns)[:60]
     rep.bounds = {"program_headers": "1 per inductive step, 0..2 (thorough 3) earlier regions", "symbols": "<= 2 dynamic, <= 2 static, <= 1 PLT relocation, <= 1 user entry", "sizes": f"segment and file sizes <= {MAXLEN}; addresses and base < 2^62 (no wrap-around)",
                   "outside": "goblin's parser (stubbed: arbitrary parsed structures), ElfLinker, overlapping PT_LOAD segments, names (carried as (table, index) pairs, not compared)"}
